@@ -80,6 +80,17 @@ LINES_MB_START = [
     ("junk-3byte-start", "\u20ac not json"),
     ("junk-4byte-start", "\U0001F600 [junk"),
 ]
+# junk lines that are not even text: their BYTES are not valid UTF-8 (they are not JSON under any reading)
+LINES_NOT_UTF8 = [
+    ("latin1-log-line", b"INFO  caf\xe9 ouvert"),
+    ("binary-noise", b"\xff\xfe\x00\x01binary\x80\x81\xfe"),
+    ("lone-continuation-bytes", b"\x80\x80 lone continuation \xbf"),
+    ("overlong-forms", b"\xc0\xaf overlong \xe0\x80\xaf \xf0\x80\x80\xaf"),
+    ("truncated-3-byte-then-text", b"start \xe2\x82 then ascii"),
+    ("truncated-4-byte-at-line-end", b"tail \xf0\x9f\x98"),
+    ("surrogate+beyond-range", b"\xed\xa0\x80 and \xf4\x90\x80\x80"),
+    ("bad-byte-first", b"\xe9 leading"),
+]
 LISTENERS = [None, "parked", "busy", "one-item"]   # who is reading client.notifications while the reader routes
 TABLES = {"mb-start": LINES_MB_START, "long+mb": LINES_LONG + LINES_MB_START, "long": LINES_LONG, "short": LINES_SHORT, "extra": LINES_EXTRA, "short-extra": LINES_SHORT_EXTRA,
           "long+extra": LINES_LONG + LINES_EXTRA, "short+mb": LINES_SHORT + LINES_MB_START}
@@ -115,6 +126,21 @@ def stream_bytes(s: Dict[str, Any]):
         return text.encode("utf-8"), names
     if s["table"] == "big":
         return big_stream(s["total"]), [f"big{s['total']}"]
+    if s["table"] == "not-utf8":
+        # lines: ["v", index into LINES_LONG unit list] or ["x", index into LINES_NOT_UTF8, term]
+        units = [(n, t, term) for (n, t) in LINES_LONG for term in ("LF", "CRLF")]
+        out = b""
+        names = []
+        for item in s["lines"]:
+            if item[0] == "v":
+                n, t, term = units[item[1]]
+                out += (t + TERMS[term]).encode("utf-8")
+                names.append(f"{n}/{term}")
+            else:
+                n, raw = LINES_NOT_UTF8[item[1]]
+                out += raw + TERMS[item[2]].encode()
+                names.append(f"{n}/{item[2]}")
+        return out + (SENTINEL + "\n").encode("utf-8"), names
     table = TABLES[s["table"]]
     units = [(n, t, term) for (n, t) in table for term in ("LF", "CRLF")]
     text = ""
@@ -444,6 +470,10 @@ TAILS = {"none": b"", "plain-fragment": b'{"jsonrpc":"2.0","id":9,"res', "mid-ut
          "cr-only": b'{"jsonrpc":"2.0","id":9,"result":{}}\r', "whitespace": b"   "}
 
 
+STALE_IDS = [["c2-a"], ["c2-b"], ["c2-a", "c2-b"], ["c1"], ["never-used"]]   # ids registered (and not answered) in connection 1
+STALE_KINDS = ["kept", "receiver-closed", "receiver-parked"]
+
+
 def run_reentry(ctl: explorer.Ctl, cfg: Dict[str, Any]) -> Dict[str, Any]:
     from chuk_mcp.transports.stdio.stdio_client import StdioClient
     import anyio
@@ -463,6 +493,23 @@ def run_reentry(ctl: explorer.Ctl, cfg: Dict[str, Any]) -> Dict[str, Any]:
             for n in range(2):
                 async with client:
                     read, write = client.get_streams()
+                    if cfg.get("stale") and n == 0:
+                        # connection 1 registers per-request streams that are never answered; the ids come again in
+                        # connection 2 (ids restart with a restarted server)
+                        for rid in STALE_IDS[cfg["stale_ids"]]:
+                            rs0 = client.new_request_stream(rid)
+                            if cfg["stale"] == "receiver-closed":
+                                rs0.close()
+                            elif cfg["stale"] == "receiver-parked":
+                                async def wait_for(stream=rs0):
+                                    try:
+                                        await stream.receive()
+                                    except Exception:  # noqa: BLE001
+                                        pass
+                                info.setdefault("parked", []).append(loop.create_task(wait_for()))
+                            else:
+                                info.setdefault("kept", []).append(rs0)      # the caller still holds it
+                        await q.settle()
                     if cfg.get("legacy") and n == 1:
                         # a per-request stream whose owner gave up (closed its receiving end) before the answer came
                         rs = client.new_request_stream("c2-a")
@@ -494,7 +541,8 @@ def run_reentry(ctl: explorer.Ctl, cfg: Dict[str, Any]) -> Dict[str, Any]:
     exp2 = reference(second)
     norm = lambda m: {k: v for k, v in m.items() if v is not None}
     if not (len(d2) == len(exp2) and all(strict_eq(norm(a), norm(b)) for a, b in zip(d2, exp2))):
-        viol.append({"sig": {"class": "second-connection-disturbed", "tail": cfg["tail"], "legacy": cfg.get("legacy")},
+        viol.append({"sig": {"class": "second-connection-disturbed", "tail": cfg["tail"], "legacy": cfg.get("legacy"),
+                             **({"stale_request_stream": cfg["stale"], "ids": "+".join(STALE_IDS[cfg["stale_ids"]])} if cfg.get("stale") else {})},
                      "msg": f"cfg={cfg}: second connection delivered {d2}, the child wrote {exp2}"})
     d1 = [dump_msg(m) for m in got[0]]
     if [m.get("id") for m in d1 if isinstance(m, dict)][:1] != ["c1"]:
@@ -837,6 +885,24 @@ def configs_for(tier: str):
             for dm in ("side-channel-never", "main-after-each-chunk"):
                 g.append({"stream": st, "cuts": cs, "drain": dm})
     groups["notification-side-channel-never-read"] = g
+    # (13) junk lines that are not valid UTF-8, alone and among valid messages, every single cut (thorough: every pair on
+    #      the one-line streams): they are dropped alone like any other junk line
+    g = []
+    unit_names = [f"{n}/{term}" for (n, _) in LINES_LONG for term in ("LF", "CRLF")]
+    v1, v2 = unit_names.index("resp-utf8/LF"), unit_names.index("notif/CRLF")
+    for bi in range(len(LINES_NOT_UTF8)):
+        for term in ("LF", "CRLF"):
+            bad = ["x", bi, term]
+            for lines in ([bad], [["v", v1], bad], [bad, ["v", v1]], [["v", v2], bad, ["v", v1]], [bad, bad]):
+                st = {"table": "not-utf8", "lines": lines}
+                n = len(stream_bytes(st)[0])
+                g.append({"stream": st, "cuts": []})
+                for c in range(1, n):
+                    g.append({"stream": st, "cuts": [c]})
+                if tier == "thorough" and len(lines) == 1:
+                    for a, b in itertools.combinations(range(1, n), 2):
+                        g.append({"stream": st, "cuts": [a, b]})
+    groups["junk-lines-that-are-not-utf8"] = g
     if tier == "thorough":
         # every triple of cuts on the short streams that begin with a multi-byte junk line
         g = []
@@ -882,6 +948,10 @@ def run(tier: str, only=None) -> core.Result:
         sched.absorb(res, "two-connections-alive", RUN_TWO, out, tcfgs)
     rcfgs = [{"tail": t, "end": e, "cut": c, "legacy": lg} for t in TAILS for e in ("clean", "child-dies") for c in (None, 7)
              for lg in (None, "open", "closed")]
+    # per-request streams of connection 1 that were never answered, the same ids arriving in connection 2
+    rcfgs += [{"tail": t, "end": e, "cut": c, "legacy": lg, "stale": st, "stale_ids": si}
+              for st in STALE_KINDS for si in range(len(STALE_IDS)) for t in ("none", "plain-fragment")
+              for e in ("clean", "child-dies") for c in (None, 7) for lg in (None, "open")]
     out = explorer.explore(RUN_RE, rcfgs, fidelity=True)
     sched.absorb(res, "same-client-entered-again+closed-request-stream", RUN_RE, out, rcfgs, min_outcomes=1)
     if not only or "conformance" in only:
@@ -910,6 +980,11 @@ def run(tier: str, only=None) -> core.Result:
         "(about 3 KB per line, multi-byte text, CRLF and LF, junk) cut into reads of exactly 65536 / 65535+1 / 1+65535 / "
         "100+65536 / 65536+100 / 2 x 65536 ... followed by silence, end of file, or one more line; the child exiting with "
         "chunks k.. of its output still in the pipe (every k) on one- and two-line streams and bursts of 99..260 lines; "
+        "junk lines whose bytes are not valid UTF-8 (Latin-1 text, binary noise, lone continuation bytes, overlong forms, "
+        "truncated 3- and 4-byte sequences, surrogates, a bad first byte) x {LF, CRLF}, alone, before / after / between valid "
+        "messages and twice in a row, at every cut (thorough: every pair of cuts on the one-line streams); the same client "
+        "object entered again after connection 1 left per-request streams unanswered (kept / receiver closed / receiver "
+        "parked; ids that come again in connection 2, an id of connection 1, an id never used); "
         "bursts of 150..400 lines with client.notifications never read, the main stream drained at the end or after every "
         "read; two connections alive on one loop: pairs of one-line streams x a cut of A "
         "inside every multi-byte character / CRLF (thorough: every position) x B uncut or cut likewise x every interleaving "
@@ -920,6 +995,8 @@ def run(tier: str, only=None) -> core.Result:
         "the scripted process implements the subset of anyio.abc.Process the transport uses (stdout async iteration, stdin send/aclose, terminate/kill/wait)",
         "lines with a wrong or missing 'jsonrpc' member are outside the alphabet (the repository's suite pins them as accepted)",
         "an unterminated final fragment is not a line the child wrote",
+        "a line whose bytes are not valid UTF-8 is junk (not JSON text); lines that would become JSON after replacing the bad "
+        "bytes are not generated",
         "array lines: while batches are accepted (no version negotiated or one before 2025-06-18) the valid members are "
         "delivered in order, otherwise nothing of the array; what is written back to the child is C13's subject and not judged here",
         "two live connections are entered and left properly nested in one task (A, then B; B left first)",
